@@ -182,9 +182,13 @@ def run(ctx, eng):
                   differs=lambda exp, got: exp[0] == 'ok' and got[0] == 'ok'
                   and exp[2].st != got[2].st and
                   (exp[2].st in counted or got[2].st in counted))
-    cm.include(ctx, eng, 'C11', {'FLOW.queue', 'FLOW.ack-source'},
+    cm.include(ctx, eng, 'C11',
+               lambda o: o.rule in ('FLOW.queue', 'FLOW.ack-source') or (
+                   o.rule == 'ATOM.SET' and
+                   o.desc.startswith('all values validated')),
                'the enforced local limit is the acknowledged one: one '
-               'pending value per setting becomes current per ACK')
+               'pending value per setting becomes current per ACK, and a '
+               'refused update_settings leaves nothing pending')
     cm.include(ctx, eng, 'C07', {'PAIR.local-reset'},
                'a stream the library resets itself stops being counted: the '
                'reset goes through the machine')
